@@ -187,10 +187,14 @@ class Environment:
             run_finished.append(True)
 
         self._active_runs += 1
-        self.schedule_event(self.now + simulation_duration, -1, _terminate, EventType.TERMINATE)
+        end_time = self.now + simulation_duration
+        self.schedule_event(end_time, -1, _terminate, EventType.TERMINATE)
 
         try:
-            while self._events and not run_finished:
+            # A nested run that ends at the same time may execute this
+            # run's terminate Event before the Event action that started
+            # it schedules more Events for that time.
+            while self._events and (not run_finished or self._events[0].time <= end_time):
                 self.step()
         finally:
             self._active_runs -= 1
